@@ -213,10 +213,15 @@ def closure(base, terms, steps=False, rounds=4):
                     divs.append(z)
         if not progress:
             break
-    # a product with a factor that is provably 0 is 0
+    # a product with a factor that is provably 0 is 0; with a factor that is provably 1 it is the other factor
     for x in muls:
         if any(entails_le0(facts, T.as_lin(g)) for g in (x[1], x[2])):
             facts.append(T.root(x))
+            continue
+        for f, g in ((x[1], x[2]), (x[2], x[1])):
+            if entails_eq0(facts, T.sub(T.as_lin(f), T.const(1))):
+                facts += _eq(T.root(x), T.as_lin(g))
+                break
     alts = [facts]
     # every quotient is 0 (then so is every product with it), 1 (then q * y = y) or at least 2 (then q * y >= 2 * y)
     for x in done:
@@ -367,6 +372,9 @@ def _conds(c):
     return None
 
 
+SPLITTABLE = ('ite', 'pos', 'min', 'max', 'ind')
+
+
 def split(t, fuel=64):
     """piecewise-linear term -> [(list of le0-forms, linear value)] ; None if something is not piecewise linear"""
     t = T.as_lin(t)
@@ -398,6 +406,15 @@ def split(t, fuel=64):
                     if i != j:
                         g.append(T.sub(a, b) if r[0] == 'min' else T.sub(b, a))   # a <= b  /  a >= b
                 alts.append((g, a))
+        elif r[0] == 'mul':
+            # a product whose factor is piecewise: split the factor
+            for f, g_ in ((r[1], r[2]), (r[2], r[1])):
+                if any(isinstance(q, tuple) and q and q[0] in SPLITTABLE for q, _ in T.as_lin(f)[2]):
+                    sf = split(f, fuel - 1)
+                    if sf is None:
+                        return None
+                    alts = [(gg, T.mul(vv, g_)) for gg, vv in sf]
+                    break
         if alts is None:
             continue
         out = []
@@ -412,6 +429,25 @@ def split(t, fuel=64):
     return [([], t)]
 
 
+def _expand_guards(guards, fuel=64):
+    """guards (forms <= 0) that mention conditionals / min / max / pos are themselves split: -> list of guard lists"""
+    for i, g in enumerate(guards):
+        if any(isinstance(r, tuple) and r and r[0] in SPLITTABLE for r, _ in T.as_lin(g)[2]):
+            if fuel <= 0:
+                return None
+            sg = split(g)
+            if sg is None:
+                return None
+            out = []
+            for g2, v2 in sg:
+                sub = _expand_guards(guards[:i] + g2 + [v2] + guards[i + 1:], fuel - 1)
+                if sub is None:
+                    return None
+                out.extend(sub)
+            return out
+    return [guards]
+
+
 def cases_of(pc_values):
     """[(pc tuple of boolean terms, value term)] -> [(le0-forms, linear value)] or None"""
     out = []
@@ -424,5 +460,9 @@ def cases_of(pc_values):
             return None
         for g in d:
             for g2, v2 in sv:
-                out.append((g + g2, v2))
+                ex = _expand_guards(g + g2)
+                if ex is None:
+                    return None
+                for gg in ex:
+                    out.append((gg, v2))
     return out
